@@ -5,6 +5,7 @@ package recipe
 
 import (
 	"fmt"
+	"math"
 	"strings"
 
 	"github.com/ichiban/prolog/engine"
@@ -362,6 +363,9 @@ func (x *G) Atomic() *rt.Term {
 	case k < 8:
 		if x.DQ == "codes" && x.P(60, "codeint") {
 			return rt.I(int64('a' + x.N(0, 3, "code")))
+		}
+		if x.P(15, "extremeint") { // integers whose difference does not fit in 64 bits
+			return rt.I([]int64{math.MaxInt64, math.MinInt64, math.MaxInt64 - 1, math.MinInt64 + 1, 1 << 62, -(1 << 62) - 1, -1}[x.N(0, 6, "xi")])
 		}
 		return rt.I(int64(x.N(-1, 2, "int")))
 	default:
